@@ -1082,6 +1082,11 @@ func (x *Exec) compileCall(env *Env, e *SCall) Value {
 		if a.T.Sort.IsBV() {
 			return TV{App("bv2nat", SInt, a.T), tInt}
 		}
+		if a.T.Sort == SF64 {
+			// the same uninterpreted truncation the executable conversion uses
+			x.declareFun("f2i", "(declare-fun f2i ((_ FloatingPoint 11 53)) Int)")
+			return TV{App("f2i", SInt, a.T), tInt}
+		}
 	case "bits": // bits(f): IEEE bit pattern identity helper: bitwise equality of floats
 		a, b := argTV(0), argTV(1)
 		return TV{Eq(a.T, b.T), tBool}
